@@ -7,7 +7,7 @@ ID = "C04"
 BUDGET = {"quick": 4000, "thorough": 300000}
 RULE = ("token soups over the terminal alphabet of grammar.pest; grammar-directed templates (nesting up to 64) and "
         "single-edit mutations of them (delete / insert / duplicate a token, toggle '~', swap tag kinds); every tag kind x "
-        "position of '~' x else / else-chain form; each compiled by the real crate under catch_unwind in a child process "
+        "position of '~' x else / else-chain form; EXHAUSTIVELY every tag opener x body of length ≤ 2 (thorough: 3) over {- ! space é a } ~} x every closer; each compiled by the real crate under catch_unwind in a child process "
         "and by the Lean model (AST, error variant, line, column compared); plus registrations of a bad source over a good "
         "one (registry unchanged); non-trivial = not plain text; distinct by source")
 DEFINITE_FLOOR = 0.99
@@ -79,11 +79,28 @@ def cross():
     return outs
 
 
+def tiny(maxlen):
+    """EXHAUSTIVE: every tag opener x every body of length ≤ maxlen over {- ! space é a } ~} x every closer – the shortest
+    spellings of every tag kind, where fixed-offset slicing, delimiter trimming and char-boundary mistakes live"""
+    openers = ["{{!", "{{!--", "{{", "{{{", "{{&", "{{>", "{{#", "{{/", "{{*", "{{~", "{{{{"]
+    closers = ["}}", "--}}", "}}}", "~}}", "}}}}"]
+    alpha = ["-", "!", " ", "é", "a", "}", "~"]
+    bodies = [""]
+    cur = [""]
+    for _ in range(maxlen):
+        cur = [b + a for b in cur for a in alpha]
+        bodies += cur
+    return [o + b + c for o in openers for b in bodies for c in closers]
+
+
 def generate(rng, n, tier="quick"):
     out = []
     for k, src in enumerate(cross()):
         out.append(({"kind": "compile", "src": src, "name": None, "prevent_indent": False, "id": "%s-cross-%03d" % (ID, k)},
                     {"mode": "cross", "src": src}))
+    for k, src in enumerate(tiny(3 if tier == "thorough" else 2)):
+        out.append(({"kind": "compile", "src": src, "name": None, "prevent_indent": False, "id": "%s-tiny-%05d" % (ID, k)},
+                    {"mode": "tiny", "src": src}))
     i = 0
     n = n + len(out)
     while len(out) < n:
